@@ -21,7 +21,11 @@ def run(ctx):
     if binary is None:
         raise RuntimeError('harness qconc.cpp does not compile against /repo: %s' % err[-1500:])
     cases = qcc.corpus_cases() + [qc_domain.gen_case(ctx.rng.fork(), 'empty') for _ in range(ctx.budget(800, 30000))]
-    st, model, texts = qc_domain.correspond(ctx, binary, cases, 'emptyQueue under threads')
+    def mon(trace, case=None):
+        return qc_domain.monitors(trace, case) + qc_domain.empty_report_problems(trace, case)
+    st, model, texts = qc_domain.correspond(ctx, binary, cases, 'emptyQueue under threads', monitors=mon)
+    ctx.coverage['thread_monitor_alarms'] = st['monitor_alarms']
+    ctx.coverage['thread_schedules_with_a_waitfor_observer'] = sum(1 for c in cases if any(x[0] == 'waitfor' for th in c['threads'] for x in th))
     ctx.coverage['thread_schedules_replayed_on_impl'] = st['compared']
     ctx.coverage['thread_visible_actions_compared'] = st['actions']
     ctx.coverage['thread_disagreements'] = st['disagreements']
